@@ -447,6 +447,10 @@ func adm_condText(e ast.Expr) string {
 		return x.Op.String() + adm_condText(x.X)
 	case *ast.ParenExpr:
 		return "(" + adm_condText(x.X) + ")"
+	case *ast.IndexExpr:
+		return adm_condText(x.X) + "[" + adm_condText(x.Index) + "]"
+	case *ast.StarExpr:
+		return "*" + adm_condText(x.X)
 	}
 	return "?"
 }
